@@ -2,6 +2,6 @@
    to the OCaml built-ins; nat, N, Z, positive stay as extracted inductives). *)
 Require Extraction.
 Require Import ExtrOcamlBasic.
-Require Import PV.Base.Str PV.Model.WF PV.Model.Pos PV.Spec.CMBlock.
+Require Import PV.Base.Str PV.Model.WF PV.Model.Pos PV.Spec.CMBlock PV.Spec.RuleSpec.
 Extraction Language OCaml.
-Extraction "pvmodel.ml" stream_ok doc_pos_ok doc_monotone CMBlock.html CMBlock.in_F.
+Extraction "pvmodel.ml" stream_ok doc_pos_ok doc_monotone CMBlock.html CMBlock.in_F RuleSpec.run_rules.
